@@ -213,6 +213,11 @@ AttemptType(reg, ptr, m, src, p, d) ==
   ELSE IF scan.st = "defer" THEN Defer(<<>>)
   ELSE IF scan.st = "fail" THEN FailA(scan.why, <<>>)
   ELSE
+  (* fix F15: the decision who owns the vftable pointer waits for the first base *)
+  LET fb == FirstIdx(scan.pend, LAMBDA x : x.reg.base)
+      baseUnresolved == fb # 0 /\ scan.pend[fb].reg.ty.k = "raw" /\ Has(reg, scan.pend[fb].reg.ty.p)
+                        /\ ~IsResolved(reg, scan.pend[fb].reg.ty.p)
+  IN IF baseUnresolved THEN Defer(<<>>) ELSE
   LET bv == BuildVft(reg, ptr, p, d.vis, src, scan.pend, [has |-> d.vft.has, funcs |-> conv.v])
       reg2 == IF bv.ins = <<>> THEN reg ELSE RegPut(reg, bv.ins[1][1], bv.ins[1][2])
       acc0 == [st |-> "ok", regions |-> <<>>, last |-> 0, why |-> ""]
